@@ -543,7 +543,11 @@ impl Prop for C17 {
 			out.sig(sig);
 			let what = format!("{:?} via {}", case.fault, case.reader.label());
 			// truncation, sync damage and I/O errors leave every count that is read genuine
-			let counts_genuine = matches!(case.fault, Fault::Truncate { .. } | Fault::Sync { .. } | Fault::Io { .. } | Fault::IoBurst { .. } | Fault::SnappyCrc { .. });
+			// ... and so does a damaged byte INSIDE a block's payload: the object counts and byte sizes the reader goes by
+			// sit in front of the payload. (However a value inside fails to decode, the reader must get to the end of the
+			// stream within the number of objects the blocks declare.)
+			let counts_genuine = matches!(case.fault, Fault::Truncate { .. } | Fault::Sync { .. } | Fault::Io { .. } | Fault::IoBurst { .. } | Fault::SnappyCrc { .. })
+				|| matches!(case.fault, Fault::Byte { off, .. } if parsed.blocks.iter().any(|b| off >= b.payload_off && off < b.sync_off));
 			if !universal(&r, &what, counts_genuine, &mut out) {
 				break;
 			}
